@@ -149,7 +149,8 @@ def run(ctx, canary=False):
                 "(clique spelling, domain order, order mode) with >= 2 maximal cliques")
     groups = {}
     # ---- design level + generator
-    sizes_n = [2, 3, 4] + ([5] if thorough else [])
+    sizes_n = [2, 3, 4]     # (n = 5 exhaustively in TLC took over an hour on 8 workers: all 1024 labelled graphs on 5 attributes are
+                            # instead built by the implementation under sampled orders and validated by the trace spec, below)
     for n in sizes_n:
         V = list(LETTERS[:n])
         r = ctx.tlc("jt/MC_JT.tla", model_cfg(V, "AllGraphs", "Sz2", "any", True), name="JT_any_%d" % n,
@@ -243,6 +244,13 @@ def run(ctx, canary=False):
         for order in perms:
             hard_orders.append((n, cl, order))
         structs.append((n, cl))
+    if thorough:
+        V5 = list(LETTERS[:5])
+        pairs5 = list(itertools.combinations(range(5), 2))
+        for mask in range(1, 2 ** len(pairs5)):
+            cl5 = [(V5[a], V5[b]) for k_, (a, b) in enumerate(pairs5) if mask >> k_ & 1]
+            for order in [list(V5)] + [rng.sample(V5, 5) for _ in range(3)]:
+                hard_orders.append((5, cl5, order))
     for n, cl, order in hard_orders:
         V = list(LETTERS[:n])
         sizes = {a: 2 for a in V}
@@ -258,7 +266,8 @@ def run(ctx, canary=False):
         bad = jt_valid(jt, V, cl)
         if bad:
             ctx.violation("not a valid junction tree: " + "; ".join(bad[:3]), info, {"kind": "structure"})
-        traces.setdefault(n, []).append({"sz": sizes, "cliques": [list(c) for c in cl], "mode": "any", "events": evs, "info": info})
+        if len(traces.setdefault(n, [])) < 6000:
+            traces[n].append({"sz": sizes, "cliques": [list(c) for c in cl], "mode": "any", "events": evs, "info": info})
     if thorough:  # all graphs on 6 attributes up to isomorphism, through the code's greedy order
         for g in graphs6():
             structs.append((6, [tuple(e) for e in g] or []))
